@@ -92,8 +92,23 @@ class WSum(object):
         return self.el.compute()
 
 
+EXC = {"IndexError": IndexError, "KeyError": KeyError, "ValueError": ValueError, "TypeError": TypeError,
+       "ZeroDivisionError": ZeroDivisionError, "StopIteration": StopIteration, "AttributeError": AttributeError}
+
+
+def f_raise(name, w):
+    """an analysis step that fails on particular values (a short tuple, a missing key ...)"""
+    def raise_on(v):
+        if w_of(sv(v)[0]) == w:
+            raise EXC[name]("the analysis fails on weight %d" % w)
+        return v
+    return raise_on
+
+
 def build_el(r):
     k = r[0]
+    if k == "raise":
+        return f_raise(r[1], r[2])
     if k == "mut":
         return f_mut
     if k == "getw":
@@ -213,22 +228,30 @@ def judge_sib(case):
     n_out = n_border = 0
     axes = [edges] if dim == 1 else edges
     rounds = [case["flow"]] + ([case["flow2"]] if case.get("flow2") is not None else [])
+    has_raise = any(r[0] == "raise" for r in recipe)
+    ambiguous_ctx = False
+    last_in_idx = None
     for rnd, flow_js in enumerate(rounds):
         flow = mkflow(flow_js)
         snapshot = copy.deepcopy(flow)
+        raised = {}
         for i, v in enumerate(flow):
             try:
                 with instr.Watchdog(WATCHED, 5000):
                     sib.fill(v)
             except instr.StepBudgetExceeded:
                 raise Violation("fill-does-not-terminate", "edges %s, value %r: more than 5000 steps" % (edges, v))
+            except tuple(EXC.values()) as e:
+                if not has_raise:
+                    raise
+                raised[i] = type(e).__name__
         with instr.Watchdog(WATCHED, 200000):
             try:
                 res = list(itertools.islice(sib.compute(), 50))
             except instr.StepBudgetExceeded:
                 raise Violation("compute-does-not-terminate", "edges %s (%s), analysis %s" % (edges, case.get("edges_as"), recipe))
         new = dict((c, []) for c in cells)
-        for v in snapshot:
+        for i_v, v in enumerate(snapshot):
             d = sv(v)[0]
             c = cell_of(dim, edges, d)
             if any(x in ax for ax, x in zip(axes, d[:dim])):
@@ -237,18 +260,29 @@ def judge_sib(case):
                 n_out += 1
                 continue
             sub[c].append(v)
-            new[c].append(v)
+            new[c].append((i_v, v))
             last_in = v
+            last_in_idx = i_v
         exp = {}
+        exp_raised = {}
         for c in cells:
             if c not in stopped:
-                for v in copy.deepcopy(new[c]):
+                for i_v, v in copy.deepcopy(new[c]):
                     try:
                         inners[c].fill(v)
                     except LenaStopFill:
                         stopped.add(c)
                         break
+                    except tuple(EXC.values()) as e:
+                        exp_raised[i_v] = type(e).__name__
             exp[c] = list(inners[c].compute())
+        if any(new.values()):
+            # the context kept when the analysis failed on the last in-range value is not promised
+            ambiguous_ctx = last_in_idx in exp_raised
+        if raised != exp_raised:
+            raise Violation("exception-of-the-cell-analysis-not-passed-on",
+                            "edges %s, analysis %s, flow %s: fill raised at %s; private copies of the analysis raise at %s" % (
+                                edges, recipe, short(snapshot, 400), raised, exp_raised))
         nres = min(len(r) for r in exp.values())
         descr = "edges %s%s, analysis %s, %sflow %s" % (edges, "" if case.get("edges_as", "lists") == "lists" else " given as " + case["edges_as"], recipe,
                                                       "" if rnd == 0 else "second fill/compute round after %s, " % short(rounds[0], 200), short(snapshot, 400))
@@ -274,6 +308,10 @@ def judge_sib(case):
                 d, c0 = sv(last_in)
                 out = make_arg(dim, case["typed"])((d, copy.deepcopy(c0) if c0 is not None else {}))
                 exp_ctx = out[1]
+            if ambiguous_ctx:
+                if ctx.get("variable", {}).get("name") != arg.name:
+                    raise Violation("context.variable-does-not-describe-the-argument-variable", "%s: %s" % (descr, ctx))
+                continue
             if rnd > 0 and not any(new.values()):
                 # compute() again without a new in-range value: the argument variable is applied to the stored
                 # context a second time (what that composition looks like is not part of the statement);
@@ -303,6 +341,8 @@ def judge_sib(case):
                "edges-as:" + case.get("edges_as", "lists"), "rounds:%d" % len(rounds)]
     if any(r[0] == "slice" for r in recipe):
         classes.append("stopping-pre-element")
+    if has_raise:
+        classes.append("analysis-raises-on-some-values")
     if n_border:
         classes.append("border-value")
     if n_out:
@@ -343,7 +383,8 @@ ctxs = st.one_of(st.none(), st.dictionaries(st.sampled_from(["a", "b"]),
                  st.just({"variable": {"name": "e", "type": "energy", "energy": {"name": "e"}}, "a": 1}))
 
 pre_el = st.one_of(st.just(["mut"]), st.just(["getw"]), st.just(["varw"]), st.just(["filt"]),
-                   st.builds(lambda k: ["slice", k], st.integers(0, 3)))
+                   st.builds(lambda k: ["slice", k], st.integers(0, 3)), st.just(["mut"]), st.just(["getw"]),
+                   st.builds(lambda n, w: ["raise", n, w], st.sampled_from(sorted(EXC)), st.integers(0, 9)))
 acc_el = st.one_of(st.just(["wsum"]), st.just(["count"]), st.just(["store"]), st.just(["store1"]),
                    st.builds(lambda n: ["uacc", n], st.integers(0, 3)), st.just(["wsum"]))
 post_el = st.sampled_from([["wrap"], ["unctx"]])
@@ -587,6 +628,145 @@ def judge_map(case):
             "classes": ["dim:%d" % dim, "stateful-seq" if stateful else "stateless-seq", "results:%d" % min(nres, 3)]}
 
 
+# ---- lena.math.meshes: where the edges and the cell-wise maps come from -------------------------------------
+
+def _nest(draw, depth, shape, leaf):
+    if depth == len(shape):
+        return draw(leaf)
+    return [_nest(draw, depth + 1, shape, leaf) for _ in range(shape[depth])]
+
+
+@st.composite
+def mesh_case(draw):
+    kind = draw(st.sampled_from(["mesh", "mesh", "mesh_md", "refine", "md_map", "md_map", "flatten", "md_map_bad"]))
+    bound = st.one_of(st.integers(-20, 20), st.sampled_from([-2.5, -1.0, 0.1, 0.3, 1e-3, 1e6, 7.25, -1e-9, 1e9 + 0.5]))
+    if kind in ("mesh", "refine"):
+        lo = draw(bound)
+        hi = lo + draw(st.one_of(st.integers(1, 30), st.sampled_from([0.1, 0.7, 1e-6, 1e7, 2.5])))
+        return {"kind": kind, "range": [lo, hi], "nbins": draw(st.integers(1, 40)), "refinement": draw(st.integers(1, 5))}
+    if kind == "mesh_md":
+        dim = draw(st.integers(1, 3))
+        rs = []
+        for _ in range(dim):
+            lo = draw(bound)
+            rs.append([lo, lo + draw(st.one_of(st.integers(1, 30), st.sampled_from([0.1, 0.7, 2.5])))])
+        return {"kind": kind, "ranges": rs, "nbins": [draw(st.integers(1, 12)) for _ in range(dim)],
+                "as_tuple": draw(st.booleans())}
+    if kind in ("md_map", "md_map_bad"):
+        shape = draw(st.lists(st.integers(0, 3), min_size=1, max_size=3))
+        narr = draw(st.integers(1, 3))
+        leaf = st.one_of(st.integers(-5, 5), st.integers(-5, 5), st.sampled_from([["t", 1, {"a": 1}], ["t", 2, 3]]))
+        arrays = [_nest(draw, 0, shape, leaf if narr == 1 else st.integers(-5, 5)) for _ in range(narr)]
+        return {"kind": kind, "arrays": arrays, "bad": draw(st.sampled_from(["tuple", "int", "str", "none"])),
+                "bad_at": draw(st.integers(0, narr - 1))}
+    items = st.recursive(st.integers(-5, 5), lambda ch: st.one_of(st.lists(ch, max_size=3), st.lists(ch, max_size=3).map(lambda l: ["t"] + l)), max_leaves=12)
+    return {"kind": "flatten", "array": draw(st.lists(items, max_size=4))}
+
+
+def _untag(x):
+    """JSON form -> value: ["t", ...] is a tuple"""
+    if isinstance(x, list):
+        if x and x[0] == "t":
+            return tuple(_untag(y) for y in x[1:])
+        return [_untag(y) for y in x]
+    return x
+
+
+def judge_mesh(case):
+    import lena.math
+    from lena.core import LenaTypeError
+    k = case["kind"]
+    classes = [k]
+
+    def check_1d(res, lo, hi, n, what):
+        if not isinstance(res, list) or len(res) != n + 1:
+            raise Violation("mesh-wrong-number-of-edges", "%s: %r" % (what, res))
+        if res[0] != lo or res[-1] != hi:
+            raise Violation("mesh-does-not-start-and-end-at-the-range", "%s: first %r last %r" % (what, res[0], res[-1]))
+        step = (hi - lo) / float(n)
+        tol = 4 * n * 2.0 ** -52 * max(abs(lo), abs(hi), abs(step))
+        for i, e in enumerate(res):
+            if abs(e - (lo + i * step)) > tol:
+                raise Violation("mesh-not-equally-spaced", "%s: edge %d is %r, expected about %r" % (what, i, e, lo + i * step))
+        if step > 64 * tol and any(b <= a for a, b in zip(res, res[1:])):
+            raise Violation("mesh-not-increasing", "%s: %r" % (what, res))
+    if k == "mesh":
+        lo, hi = case["range"]
+        n = case["nbins"]
+        for rng in ((lo, hi), [lo, hi]):
+            check_1d(lena.math.mesh(rng, n), lo, hi, n, "mesh(%r, %d)" % (rng, n))
+        return {"nontrivial": n > 1, "classes": classes}
+    if k == "mesh_md":
+        rs, ns = case["ranges"], case["nbins"]
+        conv = (lambda x: tuple(map(tuple, x))) if case["as_tuple"] else (lambda x: [list(r) for r in x])
+        res = lena.math.mesh(conv(rs), tuple(ns) if case["as_tuple"] else list(ns))
+        if not isinstance(res, list) or len(res) != len(ns):
+            raise Violation("mesh-wrong-dimension", "mesh(%r, %r) = %r" % (rs, ns, res))
+        for r_, n_, e_ in zip(rs, ns, res):
+            check_1d(e_, r_[0], r_[1], n_, "mesh(%r, %r)" % (rs, ns))
+        return {"nontrivial": len(ns) > 1, "classes": classes + ["dim:%d" % len(ns)]}
+    if k == "refine":
+        lo, hi = case["range"]
+        n, f = case["nbins"], case["refinement"]
+        arr = lena.math.mesh((lo, hi), n)
+        before = list(arr)
+        res = lena.math.refine_mesh(arr, f)
+        if arr != before:
+            raise Violation("refine_mesh-changes-its-argument", "%r" % (arr,))
+        if len(res) != n * f + 1 or res[::f] != before:
+            raise Violation("refine_mesh-loses-or-moves-edges", "refine_mesh(%r, %d) = %r" % (before, f, res))
+        for i in range(n):
+            check_1d(res[i * f:(i + 1) * f + 1], before[i], before[i + 1], f, "refine_mesh cell %d of %r by %d" % (i, before, f))
+        return {"nontrivial": f > 1 and n > 1, "classes": classes}
+    if k in ("md_map", "md_map_bad"):
+        arrays = [_untag(a) for a in case["arrays"]]
+        snap = copy.deepcopy(arrays)
+        calls = []
+
+        def f(*args):
+            calls.append(args)
+            return ("f",) + args
+        if k == "md_map_bad":
+            bad = {"tuple": tuple(arrays[case["bad_at"]]), "int": 3, "str": "ab", "none": None}[case["bad"]]
+            args = list(arrays)
+            args[case["bad_at"]] = bad
+            try:
+                r = lena.math.md_map(f, *args)
+            except LenaTypeError:
+                return {"nontrivial": True, "classes": classes + ["rejected:" + case["bad"]]}
+            if case["bad_at"] > 0 and not len(arrays[0]):
+                # (an empty first array answers before the others are looked at)
+                return {"nontrivial": False, "classes": classes + ["empty-first-array"]}
+            raise Violation("md_map-accepts-an-array-that-is-not-a-list", "md_map(f, %r) = %r" % (args, r))
+
+        def ref(*xs):
+            if isinstance(xs[0], list):
+                return [ref(*[x[i] for x in xs]) for i in range(len(xs[0]))]
+            return ("f",) + xs
+        exp = ref(*arrays)
+        got = lena.math.md_map(f, *arrays)
+        if got != exp:
+            raise Violation("md_map-differs-from-the-element-wise-map", "md_map(f, %s) = %r, expected %r" % (", ".join(map(repr, arrays)), got, exp))
+        if arrays != snap:
+            raise Violation("md_map-changes-its-arrays", "%r became %r" % (snap, arrays))
+        return {"nontrivial": len(calls) > 1 and (len(arrays) > 1 or isinstance(arrays[0][0], list)),
+                "classes": classes + ["arrays:%d" % len(arrays)]}
+    arr = _untag(case["array"])
+
+    def ref_flat(a):
+        out = []
+        for el in a:
+            if isinstance(el, (list, tuple)):
+                out.extend(ref_flat(el))
+            else:
+                out.append(el)
+        return out
+    got = list(lena.math.flatten(arr))
+    if got != ref_flat(arr):
+        raise Violation("flatten-differs", "flatten(%r) = %r" % (arr, got))
+    return {"nontrivial": len(got) > 1, "classes": classes}
+
+
 CHECKS = [
     Check("split_into_bins", judge_sib, strategy=lambda tier: sib_case(), quick=4000, thorough=40000,
           rule="edges (ints, floats, lena-style meshes with negative lower parts; <= 6 per axis) x 0-20 values whose coordinates are edges, their float neighbours, midpoints, far outside, +-5e-324 x analyses of 0-3 pre-elements "
@@ -598,6 +778,10 @@ CHECKS = [
     Check("map_bins", judge_map, strategy=lambda tier: map_case(), quick=2000, thorough=20000,
           rule="histograms with int cells (with or without context) x sequences of 1-3 elements (pure, context-adding, stateful Sum/Count/StoreFilled, 1:2 expander, filter) x drop_bins_context: "
                "same edges (equal, unshared), each cell = a fresh sequence applied to that cell alone, min number of results. Non-trivial = >= 2 cells and a stateful sequence or 2 dimensions."),
+    Check("meshes", judge_mesh, strategy=lambda tier: mesh_case(), quick=1500, thorough=40000,
+          rule="lena.math.mesh (1-3 dimensions, ranges of many magnitudes, 1-40 bins, tuples or lists): nbins+1 equally spaced increasing edges that start and end exactly at the range; refine_mesh keeps every edge; "
+               "md_map over 1-3 equally shaped nested lists (depth 1-3, tuples as leaves) equals the element-wise map, leaves the arrays alone and rejects non-lists with LenaTypeError; flatten against a recursive reference. "
+               "Non-trivial = more than one cell / array / element."),
 ]
 
 
